@@ -184,4 +184,38 @@ mod verif_replay_interp {
         let stable = INVOKE_TRANSIENT.replace("TRANSITION", r#"<transition event="child.alive" target="alive"/>"#);
         assert_eq!(run(&stable, &[]), fin("alive"));
     }
+
+    fn if_doc(cond: &str) -> String {
+        format!(
+            r###"<scxml xmlns="http://www.w3.org/2005/07/scxml" initial="s0" version="1.0" datamodel="rfsm-expression">
+ <datamodel><data id="x" expr="1"/></datamodel>
+ <state id="s0">
+  <onentry>
+   <if cond="{}"><raise event="then"/><else/><raise event="else"/></if>
+   <raise event="after"/>
+  </onentry>
+  <transition event="error.execution" target="s1"/>
+  <transition event="*" target="noerror"/>
+ </state>
+ <state id="s1">
+  <transition event="else" target="s2"/>
+  <transition event="*" target="wrongbranch"/>
+ </state>
+ <state id="s2">
+  <transition event="after" target="pass"/>
+  <transition event="*" target="aborted"/>
+ </state>
+ <final id="pass"/><final id="noerror"/><final id="wrongbranch"/><final id="aborted"/>
+</scxml>"###,
+            cond
+        )
+    }
+
+    /// C08: an <if> condition that cannot be evaluated places error.execution on the internal queue, counts as
+    /// false (the else branch runs) and the rest of the block still runs
+    #[test]
+    fn verif_replay_interp_if_condition_error() {
+        assert_eq!(run(&if_doc("nosuchvariable == 1"), &[]), fin("pass"));
+        assert_eq!(run(&if_doc("1 +"), &[]), fin("pass"));
+    }
 }
